@@ -71,7 +71,7 @@ Proof.
     exists b'. split; [exact Hb'|]. split.
     - rewrite (skel_live _ _ Hsk). auto.
     - destruct Hsk as (E & _). rewrite E. auto. }
-  destruct HI as [Hshape Htbl Hcnt Hnd Hin]. destruct Hcnt as [C1 C2 C3 C4 C5].
+  destruct HI as [Hshape Htbl Hcnt Hnd Hin]. destruct Hcnt as [C1 C2 C3 C4 C5 C6].
   assert (Hweak : forall y b b', nth_error (heap_of s) y = Some b -> skel b b' ->
      weak b' + W (sw_weak y) s K = weak b + W (sw_weak y) s' K' ->
      weak b' = W (sw_weak y) s' K' + liveN b' + n_after y K' + n_fin y K' + n_leak y (log s')).
@@ -108,6 +108,8 @@ Proof.
       destruct Hsk as (Es & Elk & _). split; congruence.
     + intros y Hy. apply Hnone in Hy. destruct (C5 y Hy) as (E1 & E2 & E3 & E4 & E5).
       rewrite HWs, Hna, Hnf, Hlog. specialize (HWw y). repeat split; try assumption. lia.
+    + intros y b' Hy Hp. destruct (Hback y b' Hy) as (b & Hb & Hsk & Hw).
+      rewrite Hlog in Hp. destruct Hsk as (Es & _). rewrite Es. apply (C6 y b Hb Hp).
   - (* no dangling handle *)
     intros y Hy. destruct (Hnd' y Hy) as (b & Hb & Hl).
     destruct (Hbox y b Hb) as (b' & Hb' & Hsk & _). exists b'. split; [exact Hb'|].
